@@ -220,12 +220,40 @@ static void bar_block_phase(int G, int step) {
         ctx.done_case();
     }
 }
+
+// Connector ends that start INSIDE a shape: the router records which shapes contain each endpoint (Router::contains) and ignores them as
+// blockers for that endpoint.  Every 2x2 shape S on the grid with the connector's source at its centre, every small second shape T, every
+// target on the grid ring; then S is moved off the source, and in a LATER transaction T is deleted or moved.  Judged after each transaction
+// (a connector with an end inside a shape of the current scene is not judged).
+static void inside_phase(int G, bool transactions) {
+    ctx.phase(mcx::fmt("polyline, source inside a 2x2 shape S near the origin (grid %d): move S 2 or 3 cells in +x/+y off the source, then delete/move the second shape T (every 1xk/kx1 rectangle that meets the source's row or column), every target on the grid ring, transactions=%d", G, transactions));
+    vector<array<int, 2>> ring; for (int x = 0; x <= G; x++) for (int y = 0; y <= G; y++) if (x == 0 || y == 0 || x == G || y == G) ring.push_back({x, y});
+    static const int MV[4][2] = {{2, 0}, {3, 0}, {0, 2}, {0, 3}};
+    for (int sx = 0; sx <= 1; sx++) for (int sy = 0; sy <= 1; sy++) {
+        Rc Sh{sx, sy, sx + 2, sy + 2}; Sh.alive = true; Sh.touched = false; int px = sx + 1, py = sy + 1;
+        vector<Rc> Ts; for (int w = 1; w <= 3; w++) for (int h = 1; h <= 3; h++) if ((w == 1) != (h == 1)) for (int x = 0; x + w <= G; x++) for (int y = 0; y + h <= G; y++) { Rc t{x, y, x + w, y + h}; t.alive = true; t.touched = false;
+            bool meets = (t.y0 <= py && py <= t.y1) || (t.x0 <= px && px <= t.x1); if (meets && !overlapR(Sh, t)) Ts.push_back(t); }
+        for (auto &Tt : Ts) for (auto &tg : ring) {
+            if (tg[0] >= Tt.x0 && tg[0] <= Tt.x1 && tg[1] >= Tt.y0 && tg[1] <= Tt.y1) continue;
+            for (auto &m : MV) { Rc S2 = Sh; S2.x0 += m[0]; S2.x1 += m[0]; S2.y0 += m[1]; S2.y1 += m[1]; if (overlapR(S2, Tt)) continue; if (tg[0] >= S2.x0 && tg[0] <= S2.x1 && tg[1] >= S2.y0 && tg[1] <= S2.y1) continue;
+                for (int o2 = 0; o2 < 5; o2++) {
+                    if (ctx.stopped()) return; if (!ctx.next()) continue;
+                    World w0; w0.shapes = {Sh, Tt}; w0.conns.push_back(Ep{px, py, tg[0], tg[1]});
+                    vector<Op> ops; ops.push_back({0, 0, m[0], m[1]});
+                    if (o2 == 0) ops.push_back({1, 1, 0, 0}); else ops.push_back({0, 1, o2 == 1 ? 1 : o2 == 2 ? -1 : 0, o2 == 3 ? 1 : o2 == 4 ? -1 : 0});
+                    string hs = world_str(w0) + " ops: " + op_str(ops[0]) + " " + op_str(ops[1]); ctx.sample(hs, 1); ctx.announce(hs);
+                    try { run_history(w0, ops, false, transactions, 1); } catch (vpsc::CriticalFailure &f) { ctx.library_abort(f.what(), hs); }
+                    ctx.done_case();
+                } }
+        }
+    }
+}
 int main(int argc, char **argv) {
     ctx.init(argc, argv);
     bool T = ctx.thorough();
     for (int ortho = 0; ortho < 2; ortho++) { phase(2, 1, 1, ortho, true, 1, 1); phase(2, 1, 2, ortho, true, 1, 1); phase(2, 1, 2, ortho, false, 1, 2); phase(2, 1, 2, ortho, true, 2, 2); phase(3, 2, 1, ortho, true, 1, 2); }
-    grid_phase(3, false, 0); grid_phase(3, false, 1); grid_phase(3, false, 100); grid_phase(3, true, 0); grid_phase(3, false, 200); bar_block_phase(5, 3);
-    if (T) { bar_block_phase(5, 1); bar_block_phase(6, 2); grid_phase(3, false, 201); grid_phase(4, false, 200); grid_phase(3, false, 101); grid_phase(3, true, 100); for (int e = 0; e < 6; e++) { grid_phase(4, false, e); grid_phase(3, true, e); } grid_phase(4, true, 0); grid_phase(4, true, 2); }
+    grid_phase(3, false, 0); grid_phase(3, false, 1); grid_phase(3, false, 100); grid_phase(3, true, 0); grid_phase(3, false, 200); bar_block_phase(5, 3); inside_phase(7, true);
+    if (T) { inside_phase(7, false); inside_phase(8, true); bar_block_phase(5, 1); bar_block_phase(6, 2); grid_phase(3, false, 201); grid_phase(4, false, 200); grid_phase(3, false, 101); grid_phase(3, true, 100); for (int e = 0; e < 6; e++) { grid_phase(4, false, e); grid_phase(3, true, e); } grid_phase(4, true, 0); grid_phase(4, true, 2); }
     if (T) for (int ortho = 0; ortho < 2; ortho++) { phase(2, 1, 3, ortho, true, 1, 1); phase(2, 1, 3, ortho, false, 1, 2); phase(2, 1, 4, ortho, true, 2, 5); phase(3, 2, 2, ortho, true, 1, 2); phase(3, 1, 3, ortho, true, 3, 5); }
     return ctx.finish();
 }
